@@ -1,9 +1,52 @@
-import MaestroVerif.Model.Exec
+import MaestroVerif.Lemmas.ExecDemo
 
-/-! # C01 — A step is never launched before all of its dependencies succeeded (theorems are being added) -/
+/-!
+# C01 — A step is never launched before all of its dependencies succeeded
+
+Model: `Model/Exec.lean` (tied to `executiongraph.py` by the execution-graph
+correspondence).  Quantifiers: every well-formed configuration (any DAG, any
+throttle / attempts / restart limit, any submission-outcome stream), every
+sequence of polls with arbitrary well-formed scheduler answers (lost, `None`,
+unknown, repeated, re-ordered reports are all just lists of reports) and cancel
+requests.
+-/
 namespace MaestroVerif.C01
 open MaestroVerif.Exec MaestroVerif.Gen
 
-theorem C01_init_not_canceled (cfg : Cfg) : (init cfg).isCanceled = false := rfl
+/-- **Every launch (first submission, resubmission, restart, local run) was
+decided when all parents of the step were complete.**  `depsOk` is the history
+variable set in `execPrep`, the first thing `_execute_record` does. -/
+theorem C01_launch_after_deps {cfg : Cfg} (wf : WFCfg' cfg) {g : G} (h : Reachable cfg g) :
+    g.depsOk = true :=
+  (invAll_reachable wf h).b.depsOk
+
+/-- The state-level reason: whatever is queued for launch or tracked as
+in flight has all of its parents in the completed set. -/
+theorem C01_ready_deps {cfg : Cfg} (wf : WFCfg' cfg) {g : G} (h : Reachable cfg g)
+    {i p : Nat} (hi : i ∈ g.ready ∨ i ∈ g.inProgress) (hp : p ∈ cfg.parents i) :
+    p ∈ g.completed :=
+  (invAll_reachable wf h).toInv.toInvA.ancR i p hi hp
+
+/-- **A step counts as complete only on success**: it enters the completed set
+in a poll only if the scheduler answered FINISHED for it in that poll (with an
+OK query), or it is a locally executed step (whose run returned OK), or this is
+a dry run. -/
+theorem C01_completed_only_on_success (cfg : Cfg) (g : G) (p : PollIn) (x : Nat)
+    (hx : x ∈ (poll cfg g p).1.completed) :
+    x ∈ g.completed ∨ (p.code = .OK ∧ (x, some State.FINISHED) ∈ p.reports) ∨
+      cfg.dry = true ∨ cfg.sched x = false :=
+  (poll_completed cfg g p).2 x hx
+
+/-- completed steps stay complete (the prerequisite of a later launch cannot be
+withdrawn) -/
+theorem C01_completed_monotone (cfg : Cfg) (g : G) (p : PollIn) (x : Nat) (hx : x ∈ g.completed) :
+    x ∈ (poll cfg g p).1.completed :=
+  (poll_completed cfg g p).1.completed x hx
+
+/-! non-vacuity: the hypotheses are satisfied by a concrete diamond with a failed
+first submission, a lost report, a time-out with restart, a failure, a cancel -/
+example : WFCfg' demoCfg ∧ Reachable demoCfg (run demoCfg demoOps) ∧
+    (run demoCfg demoOps).depsOk = true ∧ (run demoCfg demoOps).completed = [0, 1, 3] :=
+  ⟨demo_wf, demo_reachable, C01_launch_after_deps demo_wf demo_reachable, demo_state.1⟩
 
 end MaestroVerif.C01
